@@ -168,6 +168,9 @@ class BaseSimfile(OrderedDict, Serializable, metaclass=ABCMeta):
                     ignore_stray_text=not strict,
                 )
             )
+        else:
+            # No input: still set up an empty simfile (with an empty chart list)
+            self._parse(iter(()))
 
     @abstractmethod
     def _parse(self, parser: MSD_ITERATOR):
